@@ -1,9 +1,11 @@
 /-
   C16 — JSON round trip preserves meaning, explicit ids and defaults.
   PARTIAL at the theorem level: the round trip is proved for the fragment variable / AtLeast
-  (any sign and value — the part repaired by the fix for finding F16a) / AtMost / Any, nested
-  arbitrarily; All, Xor, ExactlyOne, XNor, Imply, Not and the configurator classes are covered
-  by the correspondence (toJson / toAst + build against the real code) and the oracle.
+  (any sign and value — the part repaired by the fix for finding F16a) / AtMost / Any / All /
+  Xor / ExactlyOne, nested arbitrarily.  For All the proof needs the children to stay pairwise
+  distinct after the round trip (`DistinctRT`) — exactly what fails on the models of known finding
+  F16f.  XNor, Imply, Not and the configurator classes are covered by the correspondence (toJson /
+  toAst + build against the real code) and the oracle.
 -/
 import Puan.Model.Json
 import Puan.Lemmas.Build
@@ -11,12 +13,26 @@ import Puan.Props.C04
 namespace Puan.C16
 open Puan P
 
+/-- the children stay pairwise distinct propositions after the round trip (what `All` counts with `len(set(…))`);
+    it fails exactly on the models of known finding F16f -/
+def DistinctRT (ks : List P) : Prop :=
+  ∀ as, PJ.toAstL false (toJsonL ks) = some as → distinctCount (Ast.buildL as) = as.length
+
+/-- the two halves of an `Xor` / `ExactlyOne`: "at least one" and "at most one" of the same propositions, in either order -/
+def XorShape (ks : List P) : Prop :=
+  ∃ i1 b1 m1 i2 b2 m2 args,
+    ks = [.node i1 b1 1 1 args m1, .node i2 b2 (-1) (-1) args m2] ∨
+    ks = [.node i2 b2 (-1) (-1) args m2, .node i1 b1 1 1 args m1]
+
 mutual
-/-- the fragment: variables, AtLeast (any legal sign), AtMost (negative sign), Any (+, value 1) -/
+/-- the fragment: variables; AtLeast (any legal sign); AtMost; Any; All (value = number of children, children distinct
+    after the round trip); Xor / ExactlyOne (the two halves over the same propositions) — nested arbitrarily -/
 def Frag : P → Prop
   | .leaf _ _ => True
   | .node _ _ s v ks m =>
-      ((m.cls = .atLeast ∧ (s = 1 ∨ s = -1)) ∨ (m.cls = .atMost ∧ s = -1) ∨ (m.cls = .any ∧ s = 1 ∧ v = 1)) ∧ FragL ks
+      ((m.cls = .atLeast ∧ (s = 1 ∨ s = -1)) ∨ (m.cls = .atMost ∧ s = -1) ∨ (m.cls = .any ∧ s = 1 ∧ v = 1) ∨
+       (m.cls = .all ∧ v = ks.length ∧ s = (if v > 0 then 1 else -1) ∧ DistinctRT ks) ∨
+       ((m.cls = .xor ∨ m.cls = .exactlyOne) ∧ s = 1 ∧ v = 2 ∧ XorShape ks)) ∧ FragL ks
 def FragL : List P → Prop
   | [] => True
   | k :: ks => Frag k ∧ FragL ks
@@ -34,16 +50,44 @@ theorem leaf_roundtrip (i : String) (b : Bnd) : PJ.toAst false (leafJ i b) = som
     | mk lo hi => simp at h; simp [PJ.toAst, h.1, h.2]
   · simp [PJ.toAst]
 
+theorem toAstL_length : ∀ (js : List PJ) (as : List Ast), PJ.toAstL false js = some as → as.length = js.length
+  | [], as, h => by simp [PJ.toAstL] at h; subst h; rfl
+  | j :: js, as, h => by
+      simp only [PJ.toAstL] at h
+      split at h
+      · rename_i a as' _ h2
+        cases h
+        simp [toAstL_length js as' h2]
+      · cases h
+
+theorem toJsonL_length : ∀ ks : List P, (toJsonL ks).length = ks.length
+  | [] => by simp [toJsonL]
+  | k :: ks => by simp [toJsonL, toJsonL_length ks]
+
+theorem buildL_length : ∀ as : List Ast, (Ast.buildL as).length = as.length
+  | [] => rfl
+  | a :: as => by simp [Ast.buildL, buildL_length as]
+
+/-- what the round trip gives for one proposition: a constructor call whose model evaluates alike, and the same for
+    the list of its children -/
+def RT (t : P) : Prop :=
+  (∃ a, PJ.toAst false (toJson t) = some a ∧ ∀ σ, evalPt σ a.build = evalPt σ t) ∧
+  (∃ as, PJ.toAstL false (toJsonL t.kids) = some as ∧ ∀ σ, sumPt σ ((Ast.buildL as).map (·.2)) = sumPt σ t.kids)
+
 mutual
 /-- for the fragment, `from_json (to_json t)` builds a model that evaluates like `t` on every assignment -/
-theorem frag_roundtrip : ∀ t : P, Frag t →
-    ∃ a, PJ.toAst false (toJson t) = some a ∧ ∀ σ, evalPt σ a.build = evalPt σ t
-  | .leaf i b, _ => ⟨.var i b, by simp [toJson, leaf_roundtrip], fun σ => by simp [Ast.build, evalPt]⟩
+theorem frag_rt : ∀ t : P, Frag t → RT t
+  | .leaf i b, _ =>
+      ⟨⟨.var i b, by simp [toJson, leaf_roundtrip], fun σ => by simp [Ast.build, evalPt]⟩,
+       ⟨[], by simp [P.kids, toJsonL, PJ.toAstL], fun σ => by simp [Ast.buildL, sumPt, P.kids]⟩⟩
   | .node i b s v ks m, h => by
-      have ⟨hc, hk⟩ : ((m.cls = .atLeast ∧ (s = 1 ∨ s = -1)) ∨ (m.cls = .atMost ∧ s = -1) ∨ (m.cls = .any ∧ s = 1 ∧ v = 1)) ∧ FragL ks := by
+      have ⟨hc, hk⟩ : ((m.cls = .atLeast ∧ (s = 1 ∨ s = -1)) ∨ (m.cls = .atMost ∧ s = -1) ∨ (m.cls = .any ∧ s = 1 ∧ v = 1) ∨
+          (m.cls = .all ∧ v = ks.length ∧ s = (if v > 0 then 1 else -1) ∧ DistinctRT ks) ∨
+          ((m.cls = .xor ∨ m.cls = .exactlyOne) ∧ s = 1 ∧ v = 2 ∧ XorShape ks)) ∧ FragL ks := by
         simpa [Frag] using h
-      obtain ⟨as, has, hsum⟩ := frag_roundtripL ks hk
-      rcases hc with ⟨hcls, hs⟩ | ⟨hcls, hs⟩ | ⟨hcls, hs, hv⟩
+      obtain ⟨⟨as, has, hsum⟩, hkids⟩ := frag_rtL ks hk
+      refine ⟨?_, ⟨as, by simpa [P.kids] using has, fun σ => by simpa [P.kids] using hsum σ⟩⟩
+      rcases hc with ⟨hcls, hs⟩ | ⟨hcls, hs⟩ | ⟨hcls, hs, hv⟩ | ⟨hcls, hv, hs, hd⟩ | ⟨hcls, hs, hv, hx⟩
       · refine ⟨.atLeast v as (idJ i m) (signJ s v), ?_, ?_⟩
         · simp [toJson, hcls, PJ.toAst, has]
         · intro σ
@@ -60,15 +104,51 @@ theorem frag_roundtrip : ∀ t : P, Frag t →
           subst hs; subst hv
           simp only [Ast.build, C04.evalPt_mkAny, hsum σ, evalPt]
           split <;> split <;> omega
-theorem frag_roundtripL : ∀ ks : List P, FragL ks →
-    ∃ as, PJ.toAstL false (toJsonL ks) = some as ∧ ∀ σ, sumPt σ ((Ast.buildL as).map (·.2)) = sumPt σ ks
-  | [], _ => ⟨[], by simp [toJsonL, PJ.toAstL], fun σ => by simp [Ast.buildL, sumPt]⟩
+      · -- All: the value is re-derived from the number of distinct children
+        refine ⟨.all as (idJ i m), ?_, ?_⟩
+        · simp [toJson, hcls, PJ.toAst, has]
+        · intro σ
+          have hlen : as.length = ks.length := by rw [toAstL_length _ as has, toJsonL_length]
+          have hdc : (distinctCount (Ast.buildL as) : Int) = v := by rw [hd as has, hlen, hv]
+          simp only [Ast.build, mkAll, evalPt_mkAtLeast, C04.sum_orderArgs, hsum σ, hdc, evalPt, hs, sgnOf, Option.getD_none]
+      · -- Xor / ExactlyOne: rebuilt from the propositions of one half
+        obtain ⟨i1, b1, m1, i2, b2, m2, args, hks⟩ := hx
+        -- the children of either half, with their round trip
+        have hargs : ∃ as', PJ.toAstL false (toJsonL args) = some as' ∧
+            ∀ σ, sumPt σ ((Ast.buildL as').map (·.2)) = sumPt σ args := by
+          rcases hks with rfl | rfl
+          · simpa [P.kids] using (hkids (.node i1 b1 1 1 args m1) (by simp)).2
+          · simpa [P.kids] using (hkids (.node i1 b1 1 1 args m1) (by simp)).2
+        obtain ⟨as', has', hsum'⟩ := hargs
+        have hjson : kidsOfNth ks 0 = toJsonL args := by rcases hks with rfl | rfl <;> simp [kidsOfNth]
+        have hev : ∀ σ, evalPt σ (.node i b s v ks m) = if sumPt σ args = 1 then 1 else 0 := by
+          intro σ; subst hs; subst hv
+          rcases hks with rfl | rfl <;> simp only [evalPt, sumPt] <;> split <;> split <;> split <;> split <;> omega
+        rcases hcls with hcls | hcls
+        · refine ⟨.xor as' (idJ i m) false, by simp [toJson, hcls, PJ.toAst, hjson, has'], fun σ => ?_⟩
+          rw [hev σ]; simp only [Ast.build, C04.evalPt_mkXor, hsum' σ]
+        · refine ⟨.xor as' (idJ i m) true, by simp [toJson, hcls, PJ.toAst, hjson, has'], fun σ => ?_⟩
+          rw [hev σ]; simp only [Ast.build, C04.evalPt_mkXor, hsum' σ]
+theorem frag_rtL : ∀ ks : List P, FragL ks →
+    (∃ as, PJ.toAstL false (toJsonL ks) = some as ∧ ∀ σ, sumPt σ ((Ast.buildL as).map (·.2)) = sumPt σ ks) ∧
+    (∀ k ∈ ks, RT k)
+  | [], _ => ⟨⟨[], by simp [toJsonL, PJ.toAstL], fun σ => by simp [Ast.buildL, sumPt]⟩, by simp⟩
   | k :: ks, h => by
       have ⟨h1, h2⟩ : Frag k ∧ FragL ks := by simpa [FragL] using h
-      obtain ⟨a, ha, hev⟩ := frag_roundtrip k h1
-      obtain ⟨as, has, hsum⟩ := frag_roundtripL ks h2
-      exact ⟨a :: as, by simp [toJsonL, PJ.toAstL, ha, has], fun σ => by simp [Ast.buildL, sumPt, hev σ, hsum σ]⟩
+      have hk := frag_rt k h1
+      have ⟨⟨a, ha, hev⟩, _⟩ := hk
+      obtain ⟨⟨as, has, hsum⟩, hall⟩ := frag_rtL ks h2
+      refine ⟨⟨a :: as, by simp [toJsonL, PJ.toAstL, ha, has], fun σ => by simp [Ast.buildL, sumPt, hev σ, hsum σ]⟩, ?_⟩
+      intro x hx
+      rcases List.mem_cons.1 hx with rfl | hx
+      · exact hk
+      · exact hall x hx
 end
+
+/-- **the round trip preserves meaning** (fragment): converting to JSON and back yields a model that evaluates identically
+    on every assignment -/
+theorem frag_roundtrip (t : P) (h : Frag t) :
+    ∃ a, PJ.toAst false (toJson t) = some a ∧ ∀ σ, evalPt σ a.build = evalPt σ t := (frag_rt t h).1
 
 def idOf : PJ → Option String
   | .var i _ => some i
@@ -84,5 +164,24 @@ example :
     let t : P := .node "N" ⟨0,1⟩ 1 0 [.leaf "a" ⟨0,1⟩] { cls := .atLeast }
     Frag t ∧ signJ 1 0 = some 1 ∧ sgnOf 0 (signJ 1 0) = 1 := by
   refine ⟨by simp [Frag, FragL], by decide, by decide⟩
+
+/-- non-vacuity of the All / Xor cases: All(Xor-shaped node, c) over boolean leaves is in the fragment -/
+example :
+    let x : P := .node "X" ⟨0,1⟩ 1 2 [.node "L" ⟨0,1⟩ 1 1 [.leaf "a" ⟨0,1⟩, .leaf "b" ⟨0,1⟩] { cls := .atLeast },
+                                      .node "M" ⟨0,1⟩ (-1) (-1) [.leaf "a" ⟨0,1⟩, .leaf "b" ⟨0,1⟩] { cls := .atMost }] { cls := .xor }
+    let t : P := .node "T" ⟨0,1⟩ 1 2 [.leaf "c" ⟨0,1⟩, .leaf "d" ⟨0,3⟩] { cls := .all }
+    Frag x ∧ Frag t := by
+  refine ⟨?_, ?_⟩
+  · simp only [Frag, FragL, and_true]
+    refine ⟨Or.inr (Or.inr (Or.inr (Or.inr ⟨by simp, by simp, by simp,
+      ⟨"L", ⟨0,1⟩, { cls := .atLeast }, "M", ⟨0,1⟩, { cls := .atMost }, _, Or.inl rfl⟩⟩))), ?_, ?_⟩
+    · simp
+    · simp
+  · simp only [Frag, FragL, and_true]
+    refine Or.inr (Or.inr (Or.inr (Or.inl ⟨by simp, by simp, by simp, ?_⟩)))
+    intro as h
+    simp [toJsonL, toJson, leafJ, PJ.toAstL, PJ.toAst] at h
+    subst h
+    decide
 
 end Puan.C16
